@@ -717,7 +717,17 @@ fn c11_matrix(sim: &mut Sim, rng: &mut Rng, idx: usize, out: &mut Vec<Violation>
             }
         }
         // drain by migration (any sender), then unpausing works
-        let limit = if rng.chance(1, 2) { Some(1u32) } else { None };
+        let limit = if legacy > 8 {
+            match rng.below(4) {
+                0 | 1 => None,
+                2 => Some(1000u32),
+                _ => Some(rng.range(legacy as u64 / 6 + 1, legacy as u64 + 2) as u32),
+            }
+        } else if rng.chance(1, 2) {
+            Some(1u32)
+        } else {
+            None
+        };
         for _ in 0..(legacy + 1) {
             c.apply(&tx_step(raw("migrate", INTRUDER, HUB, &basset::hub::ExecuteMsg::MigrateUnbondWaitList { limit }, vec![])));
             if c.obs.hub.as_ref().map(|h| h.legacy_wait_entries).unwrap_or(0) == 0 {
